@@ -93,7 +93,9 @@ def print_clause_layer(ctx, lk, conn, entries, options):
     mid = txn_dates[len(txn_dates) // 2]
     for frm in ['CLOSE ON %s' % mid.isoformat(), 'OPEN ON %s' % mid.isoformat(), 'CLEAR',
                 'OPEN ON %s CLOSE ON %s CLEAR' % (txn_dates[1].isoformat(), txn_dates[-1].isoformat()),
-                'year >= 1900 CLOSE ON %s' % mid.isoformat()]:
+                'year >= 1900 CLOSE ON %s' % mid.isoformat(),
+                'OPEN ON %s CLOSE ON %s CLEAR' % (mid.isoformat(), txn_dates[-1].isoformat()),
+                'OPEN ON %s CLOSE ON %s CLEAR' % (txn_dates[-2].isoformat(), txn_dates[-1].isoformat())]:
         text = 'PRINT FROM ' + frm
         try:
             cp = compiler.compile(conn, parser.parse(text))
@@ -104,6 +106,23 @@ def print_clause_layer(ctx, lk, conn, entries, options):
             ctx.record_violation('print-raises-%s' % type(exc).__name__, '%s: %r' % (text, exc))
             continue
         reloaded, _, _ = loader.load_string(out.getvalue())
+        # ... which are Beancount's own OPEN, then CLOSE, then CLEAR summarisations applied one after the other
+        if frm.startswith('OPEN ON') and 'CLOSE ON' in frm and frm.endswith('CLEAR'):
+            from beancount.ops import summarize
+            import datetime as _dt
+            import re as _re2
+            d_open, d_close = [_dt.date.fromisoformat(x) for x in _re2.findall(r'ON ([0-9-]+)', frm)]
+            ref, _ = summarize.open_opt(entries, d_open, options)
+            ref, _ = summarize.close_opt(ref, d_close, options)
+            ref, _ = summarize.clear_opt(ref, None, options)
+
+            def full(es):
+                return [(type(e).__name__, e.date, getattr(e, 'flag', None), getattr(e, 'narration', None),
+                         tuple((p.account, str(p.units)) for p in getattr(e, 'postings', ()))) for e in es]
+            ctx.count('print-clauses-composed')
+            if full(want) != full(ref):
+                ctx.record_violation('clauses-not-composed', '%s: the prepared directives are not open, close and clear applied in turn; first difference %r' % (
+                    text, next(((a, b) for a, b in zip(full(want), full(ref)) if a != b), (len(want), len(ref)))), payload={'statement': text})
 
         def key(es):
             return [(e.date, e.flag, e.narration, len(e.postings)) for e in es if isinstance(e, data.Transaction) and e.flag != 'P']
@@ -171,6 +190,10 @@ TAGGED_TAIL = """
 2020-03-02 note Assets:Bank:Checking "a tagged note" #trip ^inv-1
 2020-03-03 document Assets:Bank:Checking "/tmp/tagged.pdf" #work ^inv-2
 2020-03-04 note Assets:Bank:Checking "a plain note"
+
+2019-01-05 * "early" "a conversion at a price, before any OPEN date used"
+  Assets:Cash:EUR  100 EUR @ 1.10 USD
+  Assets:Bank:Checking  -110.00 USD
 """
 
 
@@ -290,6 +313,54 @@ option "name_expenses" "Aufwand"
 """
 
 
+NAMED = """
+2020-04-01 query "balq" "BALANCES FROM year >= 1900"
+2020-04-01 query "balw" "BALANCES AT cost FROM year >= 1900 WHERE account ~ 'Assets'"
+2020-04-01 query "jouq" "JOURNAL 'Assets' FROM year >= 1900"
+2020-04-01 query "prq" "PRINT FROM year >= 2020"
+"""
+
+
+def named_statement_layer(ctx, text):
+    """BALANCES / JOURNAL / PRINT stored as named queries: `.run NAME` prints what typing the statement prints"""
+    import contextlib
+    import os
+    import shutil
+    import tempfile
+    import warnings
+    from beanquery import shell
+    d = tempfile.mkdtemp(prefix='bqv-c14-')
+    try:
+        path = os.path.join(d, 'ledger.beancount')
+        with open(path, 'w') as f:
+            f.write(text.replace('document', 'note').replace('.pdf"', '"') + NAMED)
+        out = io.StringIO()
+        with contextlib.redirect_stderr(io.StringIO()), contextlib.redirect_stdout(io.StringIO()), warnings.catch_warnings():
+            warnings.simplefilter('ignore')
+            sh = shell.BQLShell(path, out, interactive=False, runinit=False, format='csv')
+
+            def run(cmd):
+                out.seek(0), out.truncate()
+                try:
+                    sh.onecmd(cmd)
+                except Exception as exc:  # noqa: BLE001
+                    return 'EXC:%s:%s' % (type(exc).__name__, exc)
+                return out.getvalue()
+            for name in ('balq', 'balw', 'jouq', 'prq'):
+                if name not in sh.queries:
+                    raise RuntimeError('named query %s was not loaded' % name)
+                typed = run(sh.queries[name].query_string)
+                got = run('.run ' + name)
+                ctx.evaluations += 1
+                ctx.count('named-statements')
+                ctx.nontrivial_hashes.add(hash(('named', name, text)))
+                if got != typed or got.startswith('EXC:'):
+                    ctx.record_violation('named-statement-differs-from-typed', '.run %s prints %r, typing %s prints %r' % (
+                        name, got[:300], sh.queries[name].query_string, typed[:300]), payload={'ledger': text})
+    finally:
+        shutil.rmtree(d, ignore_errors=True)
+
+
 def renamed_roots_layer(ctx):
     """BALANCES lists the accounts by account type, then name, where the types are the ledger's own root names"""
     entries, errors, options = ledgers.load(RENAMED)
@@ -323,6 +394,8 @@ def run(ctx):
         # notes and documents carry tags and links of their own
         entries, errors, options = ledgers.load(text + TAGGED_TAIL)
         conn = ledgers.connect(entries, errors, options)
+        if lk == 0:
+            named_statement_layer(ctx, text)
         # PRINT first (cheap); it also leaves its traces, if any, on the connection the other statements then use
         print_layer(ctx, lk, conn, entries, options)
         k = 0
